@@ -107,6 +107,9 @@ type env struct {
 	dirty bool // parameters changed or operations executed: not reusable
 	dead  bool // chain halted or genesis refused
 	x     map[string]string
+	ran   map[string]bool // operations executed on this chain
+	// an update was accepted and no operation has run under it yet
+	untested bool
 }
 
 func newEnv(m modDrv, mutate func(c *chain.Chain, gs simapp.GenesisState)) *env {
@@ -114,7 +117,7 @@ func newEnv(m modDrv, mutate func(c *chain.Chain, gs simapp.GenesisState)) *env 
 	for k, v := range m.Accounts() {
 		accts[k] = v
 	}
-	e := &env{m: m, x: map[string]string{}}
+	e := &env{m: m, x: map[string]string{}, ran: map[string]bool{}}
 	e.c = chain.New(chain.Options{Accounts: accts, MutateGenesis: func(c *chain.Chain, gs simapp.GenesisState) {
 		m.BaseGenesis(c, gs)
 		if mutate != nil {
@@ -291,6 +294,20 @@ func (r *runner) run(beh []chain.M) {
 			r.op(e, ev)
 		}
 	}
+	// The behaviour ended right after an accepted update (the specification
+	// expected a refusal, or the script simply stops there): the operations
+	// of the suite that have not run yet are executed under the new
+	// parameters anyway, so that "accepted but breaks a handler" is seen even
+	// when the acceptance itself was not predicted.
+	if e := r.cur; e != nil && !e.dead && e.untested && e.c != nil {
+		for _, op := range e.m.Ops() {
+			if !e.ran[op] && !e.dead {
+				in := newEvent("Op", e.m.Name())
+				in["op"] = op
+				r.op(e, in)
+			}
+		}
+	}
 }
 
 func (r *runner) update(e *env, in chain.M) {
@@ -349,6 +366,7 @@ func (r *runner) update(e *env, in chain.M) {
 	ev["note"] = short(note)
 	if string(before) != string(after) {
 		e.dirty = true
+		e.untested = true
 	}
 	r.w.Write(ev, e.state())
 }
@@ -361,6 +379,8 @@ func (r *runner) op(e *env, in chain.M) {
 	ev["base"] = baseline(m)[op]
 	res := m.RunOp(e, op)
 	e.dirty = true
+	e.ran[op] = true
+	e.untested = false
 	ev["ok"], ev["panic"], ev["halt"] = res.ok, res.panicked, res.halt
 	ev["note"] = short(res.log)
 	var st chain.M
@@ -486,6 +506,16 @@ func (r *runner) genesisInitChain(m modDrv, in chain.M) {
 // ---------------------------------------------------------------------------
 
 func paramsDriver(mode string, fl *drv.Flags) error {
+	// the cfg recorded in Init lines (used to replay a violating trace) must
+	// not carry the sharding of this process
+	var keep []string
+	for k, v := range fl.Cfg {
+		if k != "shards" && k != "shard" && k != "of" {
+			keep = append(keep, k+"="+v)
+		}
+	}
+	sort.Strings(keep)
+	chain.DriverCfg = strings.Join(keep, ",")
 	if n := fl.CfgInt("shards", 1); n > 1 {
 		return fanOut(mode, fl, int(n))
 	}
